@@ -903,8 +903,18 @@ def run(sf, spec):
     warnings.simplefilter("ignore")
     if spec["policy"].get("gran") == "native-line":
         native_line_mode()
-    apply_table(sf, spec["table"])
     from .calls import outcome, parse_arg
+    warm = spec.get("warm")
+    if warm:
+        # history before the concurrent phase: the process has served calls under another table, then
+        # the table was changed (once, before any thread starts) - caches are warm and were filled
+        # under the earlier table
+        apply_table(sf, tuple(warm[0]) if warm[0] else None)
+        for c in warm[1]:
+            do_call(sf, tuple(c))
+        apply_table(sf, spec["table"] if spec["table"] else ("preset", "default"))
+    else:
+        apply_table(sf, spec["table"])
     for lit in spec.get("pre", ()):
         # fault in the history before the concurrent phase: a configuration update that is rejected
         # (the table stays fixed); whatever it leaves behind is part of the state the threads meet
